@@ -56,14 +56,15 @@ Record cfg := mkCfg {
   c_seq_update : bool;       (* CompositeTransform.update cascades to members *)
   c_seq_clear : bool;        (* CompositeTransform.clear_buffers cascades *)
   c_seq_cond : bool;         (* CompositeTransform.condition_ cascades *)
-  c_dense_grid_data : bool   (* DenseVectorFieldTransform.grid_ re-expresses tensor parameters via data_ *)
+  c_dense_grid_data : bool;  (* DenseVectorFieldTransform.grid_ re-expresses tensor parameters via data_ *)
+  c_spline_grid_clears : bool (* BSplineTransform.grid_ calls self.clear_buffers() before it assigns self._grid *)
 }.
 Definition cfg_all (c : cfg) : bool :=
   c_data_clears c && c_reset_clears c && c_cond_clears c && c_grid_clears c && c_clear_u c && c_clear_v c
   && c_tensor_updates c && c_update_p c && c_hook c && c_upd_u c && c_inv_flip c && c_inv_link c
-  && c_seq_update c && c_seq_clear c && c_seq_cond c && c_dense_grid_data c.
+  && c_seq_update c && c_seq_clear c && c_seq_cond c && c_dense_grid_data c && c_spline_grid_clears c.
 Definition cfg_on : cfg :=
-  mkCfg true true true true true true true true true true true true true true true true.
+  mkCfg true true true true true true true true true true true true true true true true true.
 
 Section TS.
 Variables P G C : Type.
@@ -74,7 +75,8 @@ Variable fillP : P -> P -> P.                       (* in-place overwrite, keeps
 Variable regrid : kind -> P -> G -> G -> P.         (* parameters re-expressed on another grid *)
 Variable callP : nat -> option C -> P.              (* what callable no. f returns on the condition *)
 Variable fits : kind -> P -> G -> bool.             (* shape == (N,) + data_shape *)
-Variable geq : G -> G -> bool.                      (* Grid.__eq__ (ignores align_corners) *)
+Variable geq : G -> G -> bool.                      (* the test with which SpatialTransform.grid_ decides that nothing
+                                                       changes: Grid.__eq__ and equal align_corners *)
 Variable same_dom : G -> G -> bool.                 (* Grid.same_domain_as *)
 Variable spline_ok : G -> bool.                     (* grid.align_corners() (B-spline classes) *)
 Variable ffd_sub : G -> G -> option bool.           (* BSplineTransform.grid_ checks: None = ValueError,
@@ -398,6 +400,11 @@ Definition base_grid_set (s : state) (o : nat) (g : G) : state :=     (* Spatial
   | None => s
   end.
 
+(* BSplineTransform.grid_ after its checks: self.clear_buffers(); self._grid = grid *)
+Definition spline_install (s : state) (o : nat) (g : G) : state :=
+  let s0 := if c_spline_grid_clears cf then clear_buffers s o else s in
+  match get_obj s0 o with Some ob0 => set_obj s0 o (set_grid ob0 g) | None => s0 end.
+
 Definition grid_set (s : state) (o : nat) (g : G) : res unit :=
   with_obj s o (fun ob =>
     let k := o_kind ob in
@@ -423,10 +430,10 @@ Definition grid_set (s : state) (o : nat) (g : G) : res unit :=
           match ffd_sub (o_grid ob) g with
           | None => Er ValueErr s
           | Some sub =>
-              let s1 := set_obj s o (set_grid ob g) in
+              let s1 := spline_install s o g in
               if sub then data_set s1 o (regrid k (tval s r) (o_grid ob) g) false else Ok tt s1
           end
-      | Some _ => Ok tt (set_obj s o (set_grid ob g))
+      | Some _ => Ok tt (spline_install s o g)
       end
     else Ok tt (base_grid_set s o g)).
 
@@ -558,6 +565,7 @@ Inductive op :=
 | Edit (o : nat) (p : P)
 | GridSet (o : nat) (g : G)
 | CondSet (o : nat) (c : C)
+| CondNew (o : nat) (c : C)          (* t.condition(c) / t.condition(c=...): conditioned shallow copy *)
 | Reset (o : nat)
 | Update (o : nat)
 | Call (o : nat)
@@ -580,6 +588,7 @@ Definition step (s : state) (x : op) : state * outcome :=
   | Edit o p => fin (edit s o p) (fun _ => Done)
   | GridSet o g => fin (grid_set s o g) (fun _ => Done)
   | CondSet o c => fin (cond_set s o c) (fun _ => Done)
+  | CondNew o c => fin (bind (copy_obj s o) (fun n s1 => cond_set s1 n c)) (fun _ => Done)
   | Reset o => fin (reset s o) (fun _ => Done)
   | Update o => fin (update s o) (fun _ => Done)
   | Call o => fin (call s o) (fun l => Out l None)
